@@ -13,7 +13,7 @@ subprocess.run(["cp", "-r", "/repo", scratch], check=True)
 subprocess.run(["git", "-C", scratch, "checkout", "-q", "--", "."], check=True)
 a = subprocess.run(["git", "-C", scratch, "apply", os.path.join(dst, "patch.diff")], stdout=subprocess.PIPE, stderr=subprocess.STDOUT, text=True)
 ran = {"patch_applies": a.returncode == 0, "apply_out": a.stdout[-300:]}
-s = subprocess.run(["/tmp/seed/runsuite.sh", scratch], stdout=subprocess.PIPE, stderr=subprocess.STDOUT, text=True)
+s = subprocess.run(["/verif/tools/runsuite.sh", scratch], stdout=subprocess.PIPE, stderr=subprocess.STDOUT, text=True)
 ran["suite"] = [l for l in s.stdout.splitlines() if "stable tests" in l]
 checks = {}
 if ran["patch_applies"]:
